@@ -1,3 +1,8 @@
-import JV.Basic.JVal
-import JV.Basic.Wire
-import JV.Model.MergePatch
+import JV.Props.C01
+import JV.Props.C02
+import JV.Props.C03
+import JV.Props.C04
+import JV.Props.C07
+import JV.Props.C14
+import JV.Props.C15
+import JV.Props.C16
